@@ -86,6 +86,8 @@ def run(chk: Check) -> None:
     from .loader import stage_order
     from .ownership import ownership
     sub = chk.sub()
+    from .loader import deferred_stage
+    deferred_stage(sub, "R01.3")
     stage_order(sub, "R01.3")
     for prop_, rule_, construct_, ok_, loc_, msg_, facts_ in ownership(repo).obs:
         if rule_ == "R03.6":
